@@ -303,3 +303,107 @@ def identity_padding_on_the_left(repo, module_names):
                     if _is_identity_like(a) and not _is_identity_like(b) and not (len(c.args) >= 3 and _is_identity_like(c.args[2])):
                         out.append((fi, c))
     return out
+
+
+# ---------------------------------------------------------------------------------------------------------- cache decorators
+_CACHE_DECOS = {"lru_cache", "cache", "cached_property"}
+_ONE_SHOT_RESULTS = {"reversed", "map", "filter", "iter", "zip", "chain", "islice", "enumerate"}
+
+
+def _deco_name(d: ast.AST) -> str:
+    return (dotted(d.func if isinstance(d, ast.Call) else d) or "").split(".")[-1]
+
+
+def _class_by_name(repo, name: str):
+    for m in repo.modules.values():
+        if name in m.classes:
+            return m.classes[name]
+    return None
+
+
+def _annotation_classes(repo, mod, ann: ast.AST, depth: int = 0):
+    """repository classes an annotation can denote (through Union/Tuple/Optional/... and module-level aliases)"""
+    out = []
+    if ann is None or depth > 4:
+        return out
+    if isinstance(ann, ast.Constant) and isinstance(ann.value, str):
+        try:
+            ann = ast.parse(ann.value, mode="eval").body
+        except SyntaxError:
+            return out
+    for n in ast.walk(ann):
+        if isinstance(n, ast.Constant) and isinstance(n.value, str) and n is not ann:
+            out.extend(_annotation_classes(repo, mod, n, depth + 1))  # forward reference inside Union[...] / Tuple[...]
+            continue
+        nm = n.id if isinstance(n, ast.Name) else (n.attr if isinstance(n, ast.Attribute) else None)
+        if nm is None:
+            continue
+        ci = _class_by_name(repo, nm)
+        if ci is not None:
+            out.append(ci)
+            continue
+        for m in [mod] + list(repo.modules.values()):
+            if nm in m.assigns and isinstance(m.assigns[nm], (ast.Subscript, ast.Name, ast.Attribute, ast.BinOp)):
+                out.extend(_annotation_classes(repo, m, m.assigns[nm], depth + 1))
+                break
+    return out
+
+
+def _is_frozen_dataclass(ci) -> bool:
+    for d in ci.node.decorator_list:
+        if _deco_name(d) == "dataclass" and isinstance(d, ast.Call) and any(k.arg == "frozen" and isinstance(k.value, ast.Constant) and k.value.value is True for k in d.keywords):
+            return True
+    return False
+
+
+def unsound_caches(repo, module_names):
+    """[(FuncInfo, decorator name, reason)] for functools caches whose key or result cannot be trusted:
+    (a) cached_property / a cached method on a class that is not a frozen dataclass -- the object can change after the value was
+        remembered (and every caller receives the same result object);
+    (b) a cached function with a parameter whose class defines its own __eq__/__hash__ -- the cache then hands the result for one
+        argument to any other argument that merely compares equal (tolerant equality, rounded hashes);
+    (c) a cached function whose result is a one-shot iterator -- the second caller receives an exhausted iterator."""
+    out = []
+    seen = 0
+    for mn in module_names:
+        if mn not in repo.modules:
+            continue
+        mod = repo.module(mn)
+        funcs = list(mod.functions.values())
+        for fi in funcs:
+            decos = [_deco_name(d) for d in fi.node.decorator_list]
+            hit = [d for d in decos if d in _CACHE_DECOS]
+            if not hit:
+                continue
+            seen += 1
+            deco = hit[0]
+            a = fi.node.args
+            params = list(a.posonlyargs) + list(a.args) + list(a.kwonlyargs)
+            if fi.cls is not None and params and params[0].arg in ("self",) and "staticmethod" not in decos:
+                if not _is_frozen_dataclass(fi.cls):
+                    out.append((fi, deco, f"the value is remembered per {fi.cls.name} object, and a {fi.cls.name} is not immutable (no frozen dataclass): once the object changes the remembered value is stale, and every caller is handed the same result object"))
+                params = params[1:]
+            for p in params:
+                for ci in _annotation_classes(repo, mod, p.annotation):
+                    custom = [m for m in ("__eq__", "__hash__") if m in ci.methods]
+                    if custom:
+                        out.append((fi, deco, f"the cache key uses `{p.arg}`, a {ci.name}, whose {'/'.join(custom)} is hand-written (tolerant comparison, rounded hash): a call with a different {ci.name} that merely compares equal is answered with the result remembered for the other one"))
+                        break
+            one_shot = _is_generator_func(fi.node)
+            for r in [n.value for n in body_walk(fi.node) if isinstance(n, ast.Return) and n.value is not None]:
+                if isinstance(r, ast.GeneratorExp) or (isinstance(r, ast.Call) and (dotted(r.func) or "").split(".")[-1] in _ONE_SHOT_RESULTS):
+                    one_shot = True
+            if one_shot:
+                out.append((fi, deco, "the remembered result is a one-shot iterator: the first caller consumes it and every later call with the same arguments receives it exhausted"))
+    return out, seen
+
+
+def _is_generator_func(fn: ast.AST) -> bool:
+    return any(isinstance(n, (ast.Yield, ast.YieldFrom)) for n in body_walk(fn))
+
+
+def check_caches(ctx, rule: str, module_names):
+    hits, seen = unsound_caches(ctx.repo, module_names)
+    for fi, deco, why in hits:
+        ctx.violation(rule, f"{fi.key}:cache:{deco}", f"{fi.qualname} is wrapped in functools.{deco}: {why}", f"{fi.module.relpath}:{fi.node.lineno}")
+    ctx.ok(rule, "artefacts:caches", f"{seen} functools cache decorator(s) examined in {', '.join(module_names)}: {len(hits)} with an untrustworthy key or result", "")
